@@ -37,6 +37,7 @@ TRUSTED = [
 ]
 
 FINDING_RV_EDGE = "C09-erasech-rv-right-edge"
+FINDING_PRINTN0 = "C09-printn-zero-length-strlen"
 VERIF = os.path.dirname(os.path.dirname(os.path.dirname(os.path.abspath(__file__))))
 
 SIZES = [(1, 1), (1, 4), (2, 2), (3, 5), (5, 10), (4, 7), (6, 3), (5, 1), (24, 80), (3, 140)]
@@ -61,8 +62,10 @@ class Cur:
             if self.known is False and l != -1 and c != -1: self.known = True
         elif k == "M":
             self.row += int(f[1]); self.col += int(f[2]); self.pend = False if (int(f[1]) or int(f[2])) else self.pend
-        elif k == "P":
+        elif k in ("P", "p", "n"):
             n = 0 if f[1] == "-" else len(f[1]) // 2
+            if k == "n" and int(f[2]) != 0:
+                n = int(f[2])          # (length 0 writes the whole string: recorded deviation)
             if n:
                 if self.col + n >= self.cols: self.col, self.pend = self.cols - 1, True
                 else: self.col += n
@@ -112,7 +115,9 @@ def op_tag(slrm, lines, cols, cur, op):
         l, c = int(f[1]), int(f[2])
         return ("G", l == -1, -1 if c == -1 else 0 if c == 0 else 1, cur.pend)
     if k == "M": return ("M", mag(int(f[1])), mag(int(f[2])))
-    if k == "P": return ("P", cur.col + (0 if f[1] == "-" else len(f[1]) // 2) >= cols)
+    if k in ("P", "p"): return (k, cur.col + (0 if f[1] == "-" else len(f[1]) // 2) >= cols)
+    if k == "n": return ("n", int(f[2]) == 0, int(f[2]) == (0 if f[1] == "-" else len(f[1]) // 2))
+    if k == "O": return ("O", min(int(f[1]), 65))
     if k == "E":
         n = int(f[1])
         return ("E", cur.rv, int(f[2]), 0 if n < 1 else 1 if n == 1 else 2 if n <= 64 else 3 if n <= 128 else 4,
@@ -166,6 +171,16 @@ def _gen(tier, seed, info):
                         counts["erase_sweep"] += 1
                         fill = "G:1:0 P:%s " % hexs("".join(chr(33 + i % 90) for i in range(cols)))
                         yield "%d %d 1 0 0 %sc:%s G:1:%d E:%d:%d G:0:0" % (lines, cols, fill, rvpen, c, n, me)
+    # 3b. the public print calls and the output buffer: print (strlen), printn with every prefix length
+    #     (length 0 of a non-empty string is the recorded deviation), buffer sizes around the write sizes
+    for size in (0, 1, 2, 7, 64, 4096):
+        for text in ("", "A", "Hello", "0123456789"):
+            for ln in sorted({0, 1, len(text) // 2, len(text)}):
+                if ln > len(text):
+                    continue
+                counts["print_buffer"] = counts.get("print_buffer", 0) + 1
+                yield "2 12 1 0 0 O:%d G:1:1 p:%s G:0:0 n:%s:%d F c:rv=1 E:5:0 S:0:0:2:12:1:0 O:0 P:%s" % (
+                    size, hexs(text), hexs(text), ln, hexs(text))
     # 4. random in-range sequences
     nseq = 6000 if quick else 800000
     pens = ["-", "rv=1", "rv=0", "bg=4", "fg=1,bg=2,rv=1", "bg=200", "rv=1,bg=17#102030", "b=1,u=1", "bg=-1", "fg=9"]
@@ -176,8 +191,8 @@ def _gen(tier, seed, info):
         ops = []
         malformed = rnd.random() < 0.08
         for _ in range(rnd.randint(1, 9)):
-            kind = rnd.choice("GGMMPPEEKSSSScs")
-            if not cur.known and kind in "MPE":
+            kind = rnd.choice("GGMMPPpnEEKSSSScsOF")
+            if not cur.known and kind in "MPpnE":
                 kind = "G"
             if kind == "G":
                 l = rnd.choice([-1, 0, lines - 1, rnd.randrange(lines)])
@@ -209,6 +224,20 @@ def _gen(tier, seed, info):
                 n = max(0, min(n, room - 1 if me == 1 else room))
                 if malformed and rnd.random() < 0.3: n = room + 3
                 op = "E:%d:%d" % (n, me)
+            elif kind in "pn":
+                room = 0 if cur.pend else max(0, cols - cur.col)
+                text = "".join(chr(rnd.randint(33, 126)) for _ in range(rnd.randint(0, room)))
+                if kind == "p":
+                    op = "p:" + hexs(text)
+                else:
+                    ln = rnd.choice([len(text), len(text), rnd.randint(0, len(text))])
+                    if ln == 0 and text and rnd.random() < 0.8:
+                        ln = len(text)           # keep the recorded deviation rare
+                    op = "n:%s:%d" % (hexs(text), ln)
+            elif kind == "O":
+                op = "O:%d" % rnd.choice([0, 1, 3, 8, 64, 1000])
+            elif kind == "F":
+                op = "F"
             elif kind == "K":
                 op = "K"
             elif kind == "S":
@@ -276,14 +305,24 @@ def _excl_oracle(case, obs):
     return _co.stdout.readline().decode().strip()
 
 
+def triggers_printn0(case):
+    """recorded deviation: printn(str, 0) of a non-empty string writes the whole string"""
+    return any(op.startswith("n:") and op.endswith(":0") and op.split(":")[1] != "-" for op in case.split()[5:])
+
+
+def in_trigger_class(case):
+    return triggers_rv_edge(case) or triggers_printn0(case)
+
+
 def explain(case, obs, findings):
-    """attributed to the finding iff the case contains a request of the trigger class AND the extracted
-    oracle finds nothing wrong up to that request"""
-    if not triggers_rv_edge(case):
+    """attributed to a finding iff the case contains a request of its trigger class AND the extracted
+    oracle finds nothing wrong when requests of the trigger classes are left out of the judgement"""
+    p0, rv = triggers_printn0(case), triggers_rv_edge(case)
+    if not (p0 or rv):
         return None
     try:
         if _excl_oracle(case, obs).startswith("OK"):
-            return FINDING_RV_EDGE
+            return FINDING_PRINTN0 if p0 else FINDING_RV_EDGE
     except Exception:
         return None
     return None
@@ -312,5 +351,5 @@ def gen(tier, seed, info):
     """cases outside the trigger class of the recorded finding first (stable), so that the first failing
     input reported for a broken tree is one that has nothing to do with the finding whenever such a case exists"""
     cases = list(_gen(tier, seed, info))
-    cases.sort(key=triggers_rv_edge)
+    cases.sort(key=in_trigger_class)
     return iter(cases)
